@@ -9,8 +9,15 @@ Engine E2 over (a) texts and (b) load histories:
  histories = all sequences of <= h loads of representative texts against ONE
  schema object.  Oracle: reference admission (vz.ref.match with per-load imports)
  and a structural digest of the schema that must not change.
+ Wave 5, the component-REFERENCE axis: a component is (package, file); every way of
+ denoting one (package alone, default file name spelled out, another file of the
+ package, dotted sub-package, sub-package relative to the prefix, a file that does not
+ exist) at every site that can denote one (<import> in the application schema, <import>
+ in a component, <import> in a schema pulled in with <import src=...>, '%import' in the
+ text), all sequences of <= 2 schema-level references x text BFS.
 """
 import itertools
+import os
 
 from dataclasses import replace
 
@@ -58,6 +65,7 @@ def make_packages(P):
     nocomp = P.add_package_without_component("nocomp")
     mod = P.add_module("mod")
     missing = P.missing("missing")
+    P.cref = make_cref_packages(P)
     return [pa, pb, pc, pd, nocomp, mod, missing]
 
 
@@ -93,8 +101,9 @@ def observe_mem(sch, files):
     return ("I", core.exc_desc(r[1]))
 
 
-def explore_texts(S, sch, P, plist, depth, acc, mid, d0, tier, A=None):
-    """BFS over event sequences; reference state = (container state, imports)."""
+def explore_texts(S, sch, P, plist, depth, acc, mid, d0, tier, A=None, hook=None):
+    """BFS over event sequences; reference state = (container state, imports).
+    hook(h2, ref, obs) -> further tags for the violations of this case (and counts what it likes)."""
     A = A or alphabet(S, plist, tier)
     xml = mid["schema"]
     seen = set()
@@ -119,17 +128,18 @@ def explore_texts(S, sch, P, plist, depth, acc, mid, d0, tier, A=None):
                     acc.nt()
                 acc.sample(lambda: dict(case, reference=[ref.verdict, ref.clause], observed=obs[0]))
                 acc.cls("ref=%s impl=%s" % (ref.verdict, obs[0]))
+                more = hook(h2, ref, obs) if hook else {}
                 if obs[0] == "I":
                     acc.violation("internal-error", case, obs[1], ref.verdict,
-                                  tags={"kind": "internal-error", "exc": obs[1]["class"]})
+                                  tags=dict(more, kind="internal-error", exc=obs[1]["class"]))
                     continue
                 if ref.verdict == "U":
                     continue
                 if obs[0] != ref.verdict or (obs[0] == "A" and obs[1] != ref.tree):
                     acc.violation("admission-differs-from-reference", case,
                                   [obs[0], repr(obs[1])[:200]], [ref.verdict, ref.clause, repr(ref.tree)[:200]],
-                                  tags={"kind": "admission", "clause": ref.clause, "ref": ref.verdict,
-                                        "with_import": bool(imps)})
+                                  tags=dict(more, kind="admission", clause=ref.clause, ref=ref.verdict,
+                                            with_import=bool(imps)))
                     continue
                 # the same events cut into two resources at every point, tail included from the head and
                 # head included ahead of the tail: imports made on either side of an '%include' boundary
@@ -274,7 +284,231 @@ def explore_histories(S, xml, P, plist, hlen, acc, mid):
     acc.states += 1
 
 
+# ---------------------------------------------------------------------------
+# wave 5: the component-reference axis
+#
+# A schema component is identified by (package, file), file defaulting to 'component.xml'
+# (docs/writing-schema.rst, <import>): whatever way a reference is written, and wherever it
+# is written, the component it denotes is read at most once per schema / per load, and two
+# references denote the same component iff package and (defaulted) file agree.
+
+SPELLINGS = ("bare", "deffile", "extra", "sub", "relsub", "nofile")
+SITES = ("D", "I")       # D: <import> written in the application schema; I: in a component that the schema imports
+
+
+def cref_attrs(pq, k):
+    """-> (attributes of the <import>, prefix the enclosing document element needs, key of the component denoted)"""
+    return {
+        "bare": ('package="%s"' % pq, None, pq),
+        "deffile": ('package="%s" file="component.xml"' % pq, None, pq),
+        "extra": ('package="%s" file="extra.xml"' % pq, None, pq + ":extra.xml"),
+        "sub": ('package="%s.sub"' % pq, None, pq + ".sub"),
+        "relsub": ('package=".sub"', pq, pq + ".sub"),
+        "nofile": ('package="%s" file="absent.xml"' % pq, None, pq + ":absent.xml"),
+    }[k]
+
+
+class CRef:
+    """The component universe of the reference axis.  types / imports are keyed by COMPONENT: a real package
+    name stands for its component.xml (that is what '%import' can name), 'package:file' for another file."""
+
+    def __init__(self):
+        self.types, self.imports, self.pr, self.src = {}, {}, {}, {}
+
+    def closure(self, keys):
+        out, todo = set(), list(keys)
+        while todo:
+            k = todo.pop()
+            if k not in out:
+                out.add(k)
+                todo += self.imports.get(k, ())
+        return out
+
+
+def _write(path, text):
+    with open(path, "w") as f:
+        f.write(text)
+
+
+def make_cref_packages(P):
+    Q = CRef()
+    Q.dir = P.dir
+    q1 = M.SType("q1", (M.Key("pk"),), implements="a")
+    q2 = M.SType("q2", (), implements="a")
+    q3 = M.SType("q3", (), implements="a")
+    comp = lambda types: "<component>\n" + "\n".join(sum((M.render_type(t) for t in types), [])) + "\n</component>\n"
+    pq = Q.pq = P.add_component("pq", [q1], extra_files={"extra.xml": comp([q2])})
+    os.makedirs(os.path.join(P.dir, pq, "sub"))
+    _write(os.path.join(P.dir, pq, "sub", "__init__.py"), "# generated sub-package\n")
+    _write(os.path.join(P.dir, pq, "sub", "component.xml"), comp([q3]))
+    P.real["pq.sub"] = pq + ".sub"
+    P.types[pq + ".sub"] = (q3,)
+    P.imports[pq + ".sub"] = ()
+    Q.types.update({pq: (q1,), pq + ":extra.xml": (q2,), pq + ".sub": (q3,), pq + ":absent.xml": None})
+    for k in SPELLINGS:
+        attrs, prefix, key = cref_attrs(pq, k)
+        rt = M.SType("r" + k, (), implements="a")
+        # a component whose <import> is written in spelling k
+        real = Q.pr[k] = P.add_component("pr" + k, [rt], prefix=prefix)
+        _write(os.path.join(P.dir, real, "component.xml"),
+               "<component%s>\n  <import %s/>\n%s\n</component>\n"
+               % (' prefix="%s"' % prefix if prefix else "", attrs, "\n".join(M.render_type(rt))))
+        Q.types[real] = (rt,)
+        Q.imports[real] = (key,)
+        # a SCHEMA (for <import src=...>) that defines the abstract type and imports in spelling k
+        path = os.path.join(P.dir, "vzsrc_%s.xml" % k)
+        _write(path, "<schema%s>\n  <abstracttype name=\"a\"/>\n  <import %s/>\n</schema>\n"
+               % (' prefix="%s"' % prefix if prefix else "", attrs))
+        Q.src[k] = "file://" + path
+    return Q
+
+
+CREF_OWN = (M.SType("c1", (M.Key("k"),), implements="a"), M.SType("c2", (), extends="c1"))
+CREF_SLOT = M.Sect("*", "a", attribute="sa", multi=True)
+
+
+def cref_member(Q, src_k, refs):
+    """Application schema with the given references -> (xml, reference schema | None, refusal clause | None,
+    components the reference holds, components held through the src schema).
+    src_k: None = the schema defines the abstract type itself; else it gets it from '<import src=S_k>' where
+    schema S_k defines it and imports in spelling src_k.  refs: sequence of (site, spelling)."""
+    prefix = Q.pq if any(s == "D" and cref_attrs(Q.pq, k)[1] for s, k in refs) else None
+    lines = ["<schema%s>" % (' prefix="%s"' % prefix if prefix else "")]
+    lines.append('  <abstracttype name="a"/>' if src_k is None else '  <import src="%s"/>' % Q.src[src_k])
+    keys = []
+    for site, k in refs:
+        if site == "D":
+            lines.append("  <import %s/>" % cref_attrs(Q.pq, k)[0])
+            keys.append(cref_attrs(Q.pq, k)[2])
+        else:
+            lines.append('  <import package="%s"/>' % Q.pr[k])
+            keys.append(Q.pr[k])
+    for t in CREF_OWN:
+        lines += M.render_type(t)
+    lines += M.render_item(CREF_SLOT)
+    lines.append("</schema>")
+    xml = "\n".join(lines) + "\n"
+    # the reference: fold the references over the model, each component read once
+    S = M.Schema(types=(M.AType("a"),))
+    held, via_src = set(), set()
+    try:
+        if src_k is not None:
+            S = R.import_component(S, held, cref_attrs(Q.pq, src_k)[2], Q.types, Q.imports)
+            via_src = set(held)
+        for key in keys:
+            S = R.import_component(S, held, key, Q.types, Q.imports)
+    except R._Reject as r:
+        return xml, None, r.clause, held, via_src
+    S = replace(S, types=tuple(S.types) + CREF_OWN, items=(CREF_SLOT,))
+    return xml, S, None, held, via_src
+
+
+def cref_variants(tier):
+    """(src_k, refs, text depth): every sequence of <= 2 schema-level references over SITES x SPELLINGS, with the
+    abstract type defined by the schema itself or obtained through a src-imported schema in every spelling."""
+    alpha = [(s, k) for s in SITES for k in SPELLINGS]
+    seqs = [()] + [(a,) for a in alpha] + [(a, b) for a in alpha for b in alpha]
+    out = []
+    for refs in seqs:
+        out.append((None, refs, (3 if len(refs) < 2 else 2) if tier == "quick" else 3))
+    for src_k in SPELLINGS:
+        for refs in seqs:
+            if tier == "quick" and len(refs) > 1:
+                continue
+            out.append((src_k, refs, 2 if tier == "quick" or len(refs) > 1 else 3))
+    return out
+
+
+def load_schema_obs(xml):
+    import ZConfig
+    try:
+        return ("A", H.load_schema(xml))
+    except ZConfig.ConfigurationError as e:
+        return ("R", type(e).__name__ + ": " + str(e).split("\n")[0][:120])
+    except Exception as e:
+        return ("I", core.exc_desc(e))
+
+
+def explore_cref(Q, variant, acc, tier):
+    src_k, refs, depth = variant
+    xml, Sref, clause, held, via_src = cref_member(Q, src_k, refs)
+    label = {"abstract_from": "src-schema:" + src_k if src_k else "schema", "refs": ["%s:%s" % r for r in refs]}
+    mid = {"schema": xml, "packages": {k: None for k in Q.types if ":" not in k}, "pkgdir": Q.dir,
+           "preimported": sorted(held), "component_references": label}
+    base_tags = {"axis": "component-reference", "abstract_from": "src-schema" if src_k else "schema"}
+    # do two schema-level references reach one component (by different routes / spellings)?
+    keys = [cref_attrs(Q.pq, k)[2] if s == "D" else Q.pr[k] for s, k in refs]
+    again_src = bool(via_src & Q.closure(keys))
+    allkeys = ([cref_attrs(Q.pq, src_k)[2]] if src_k else []) + keys
+    twice = sum(len(Q.closure([k])) for k in allkeys) > len(Q.closure(allkeys))
+    acc.current = xml
+    so = load_schema_obs(xml)
+    acc.ev()
+    acc.extra["cref_schema_variants"] += 1
+    acc.cls("cref schema ref=%s impl=%s" % ("A" if Sref is not None else "R", so[0]))
+    if Sref is not None and twice:
+        acc.extra["cref_schemas_reaching_a_component_twice"] += 1
+    if Sref is not None and again_src:
+        acc.extra["cref_schemas_reaching_a_component_of_the_src_schema_again"] += 1
+    if so[0] == "I":
+        acc.violation("internal-error", {"member": mid}, so[1], "schema loads" if Sref is not None else clause,
+                      tags=dict(base_tags, kind="internal-error", exc=so[1]["class"], stage="schema"))
+        return
+    if Sref is None:
+        acc.clause("schema:" + clause)
+        if so[0] != "R":
+            acc.violation("schema-accepted-reference-refuses", {"member": mid}, "schema loaded", ["R", clause],
+                          tags=dict(base_tags, kind="schema-accepted", clause=clause))
+        return
+    if so[0] == "R":
+        acc.violation("schema-refused-reference-accepts", {"member": mid}, so[1], "schema loads",
+                      tags=dict(base_tags, kind="schema-refused",
+                                schema_references_component_of_src_schema_again=again_src))
+        return
+    sch = so[1]
+    d0 = H.schema_digest(sch)
+    A = [("i", Q.pq), ("i", Q.pq + ".sub")] + [("i", Q.pr[k]) for k in SPELLINGS] + \
+        [("e", t, None) for t in ("q1", "q2", "q3") + tuple("r" + k for k in SPELLINGS) + ("c1",)]
+    site_labels = sorted(set(["S:" + src_k] if src_k else []) | set("%s:%s" % r for r in refs))
+
+    def hook(h2, ref, obs):
+        names = [e[1] for e in h2 if e[0] == "i"]
+        clo = Q.closure(names) if ref.clause != "import-refused-not-a-component-package" else set()
+        re_held = bool(clo & held)
+        re_src = bool(clo & via_src)
+        if re_held and ref.verdict == "A" and any(e[0] == "e" for e in h2):
+            acc.extra["cref_accepted_texts_importing_a_component_the_schema_holds"] += 1
+            for lab in site_labels:
+                acc.extra["cref reimport after " + lab] += 1
+        if len(clo) < sum(len(Q.closure([n])) for n in set(names)) and ref.verdict == "A":
+            acc.extra["cref_accepted_texts_reaching_a_component_twice"] += 1
+        return dict(base_tags, text_imports_component_schema_holds=re_held,
+                    text_imports_component_of_src_schema=re_src)
+
+    old = PRE[0]
+    PRE[0] = tuple(sorted(held))
+    try:
+        explore_texts(Sref, sch, Q, None, depth, acc, mid, d0, tier, A=A, hook=hook)
+    finally:
+        PRE[0] = old
+
+
+def shard_cref(arg, acc):
+    _, i, n, tier = arg
+    P = pkgs.Packages()
+    try:
+        make_packages(P)
+        for v in cref_variants(tier)[i::n]:
+            explore_cref(P.cref, v, acc, tier)
+    finally:
+        P.close()
+    acc.traces = acc.transitions
+    return acc
+
+
 def shard(arg, acc):
+    if arg[0] == "cref":
+        return shard_cref(arg, acc)
     lo, hi, nconc, two, depth, hlen, tier = arg
     P = pkgs.Packages()
     try:
@@ -341,6 +575,10 @@ def run(tier):
         step = max(1, n // 16 + (1 if n % 16 else 0))
         for lo in range(0, n, step):
             shards.append((lo, min(n, lo + step), nconc, two, depth, hlen, tier))
+    nvar = len(cref_variants(tier))
+    ncref = 16 if tier == "quick" else 48
+    for i in range(ncref):
+        shards.append(("cref", i, ncref, tier))
     run = core.Run(
         "C12", tier, "model_checking",
         rule="schemas: abstract types a (and b) x 2..%d concrete types, each implementing none / a / b and extending "
@@ -355,8 +593,27 @@ def run(tier):
              "schema object; every explored text with an import and a use is also cut into two resources at every point "
              "(tail included from the head / head included ahead of the tail) and must give the same outcome.  Every load: outcome == reference admission; schema "
              "digest unchanged.  Non-trivial = text with >= 1 section use decided by a clause other than unknown-type; "
-             "history steps after the first." % (max(f[0] for f in fam), total),
-        bounds={"families": fam, "schemas": total},
+             "history steps after the first.  "
+             "COMPONENT-REFERENCE axis (w5): a component is (package, file), file defaulting to component.xml; one base schema "
+             "(a; c1 implements a; c2 extends c1) gets every sequence of <= 2 schema-level references over 2 sites (D: "
+             "<import> written in the schema, I: <import package=R/> of a component R whose own <import> is written that way) "
+             "x 6 spellings (package alone; file=\"component.xml\" spelled out; file=\"extra.xml\", another component of the "
+             "same package; dotted sub-package; '.sub' relative to the prefix; a file that does not exist), the abstract type "
+             "either defined by the schema or obtained through <import src=S/> of a schema S that defines it and imports in "
+             "each of the 6 spellings (%d schema variants; quick: <= 1 further reference after a src import); reference: "
+             "each component is read once however it is reached, a reference to a missing file is refused (schema not "
+             "loadable / '%%import' refused); per variant a text BFS over '%%import' of the package, of its sub-package and of "
+             "the 6 referring components and '<t/>' of every type they define, to depth 2-3, every text with an import and a "
+             "use also cut into two resources."
+             % (max(f[0] for f in fam), total, nvar),
+        bounds={"families": fam, "schemas": total,
+                "component_reference_axis": {"sites": ["D", "I", "S(src schema)", "T('%import')"], "spellings": list(SPELLINGS),
+                                             "schema_level_reference_sequences": "<= 2 (after a src import: <= %d)"
+                                                                                 % (1 if tier == "quick" else 2),
+                                             "schema_variants": nvar,
+                                             "text_depth": "3 for <= 1 reference, else 2" if tier == "quick"
+                                                           else "3 (2 for src import + 2 references)",
+                                             "text_alphabet": "8 '%import' names + 10 type names"}},
         assumptions=["reference admission model vz/ref/match.py (imports extend the model of this load only)",
                      "generated packages on a scratch sys.path entry"])
     core.pmap(shard, shards, run.acc, shard_budget=3000.0)
@@ -365,6 +622,21 @@ def run(tier):
             "import-refused-not-a-component-package", "import-redefines-type"]
     missing = [c for c in need if not a.clauses.get(c)]
     run.require(not missing, "reference clauses never decided: %s" % missing)
+    # the component-reference axis was really walked: every variant, and for every valid spelling at every site
+    # accepted texts that '%import' (directly or through a component) a component the schema already holds
+    x = a.extra
+    run.require(x["cref_schema_variants"] == nvar, "component-reference variants explored: %d of %d"
+                % (x["cref_schema_variants"], nvar))
+    thin = ["%s:%s" % (site, k) for site in ("D", "I", "S") for k in SPELLINGS if k != "nofile"
+            and x["cref reimport after %s:%s" % (site, k)] < 100]
+    run.require(not thin, "fewer than 100 accepted texts re-importing a component the schema holds through: %s" % thin)
+    run.require(x["cref_schemas_reaching_a_component_twice"] >= 40,
+                "schemas whose references reach one component twice: %d" % x["cref_schemas_reaching_a_component_twice"])
+    run.require(x["cref_accepted_texts_reaching_a_component_twice"] >= 1000,
+                "accepted texts whose imports reach one component twice: %d"
+                % x["cref_accepted_texts_reaching_a_component_twice"])
+    run.require(a.clauses.get("schema:import-refused-not-a-component-package", 0) >= 60,
+                "schemas referring to a component file that does not exist")
     return run
 
 
@@ -380,9 +652,17 @@ def replay(body):
             for real in case["member"]["packages"]:
                 logical = real.rsplit("_", 1)[1]
                 text = text.replace(real, P.real[logical])
+            if case["member"].get("pkgdir"):
+                text = text.replace(case["member"]["pkgdir"], P.dir)
             return text
         for _ in range(2):
-            sch = H.load_schema(case["member"]["schema"])
+            so = load_schema_obs(remap(case["member"]["schema"]))
+            if so[0] != "A" or body["kind"] in ("schema-refused-reference-accepts", "schema-accepted-reference-refuses"):
+                print("schema:\n" + remap(case["member"]["schema"]) + "->", so[0], so[1] if so[0] != "A" else "loaded",
+                      "; expected:", body["expected"])
+                rc = 1 if (so[0] == "A") == (body["kind"] == "schema-accepted-reference-refuses") else 0
+                continue
+            sch = so[1]
             d0 = H.schema_digest(sch)
             texts = case.get("history") or [case["text"]]
             for t in texts:
